@@ -293,6 +293,61 @@ def precommit_veto_scenario(ctx):
         w.close()
 
 
+def reader_during_transaction_scenario(ctx):
+    """Atomicity as a concurrent reader sees it: while a descriptor transaction that removes a descriptor (with its states)
+    is open, another thread asks the entity getters for it. The answer is the complete entity from before the transaction
+    or `None` from after it - never an exception, never a descriptor of before with the states of after."""
+    import threading
+    p = lb.Provider(mdib_path=c02.MDIBS[1], start=False, role_providers=False)
+    m = p.mdib
+    w = tx.World(p, ctx.subrng('reader'))
+    try:
+        with m.context_state_transaction() as mgr:
+            mgr.mk_context_state('PC.mds0', 'rd_patient', set_associated=False)
+        metric = w.states_of_kind('metric')[0]
+        for handle in (metric, 'PC.mds0'):
+            before_n = len(m.context_states.descriptor_handle.get(handle, [])) if handle == 'PC.mds0' else 1
+            inside, go = threading.Event(), threading.Event()
+            result = {}
+
+            def writer():
+                with m.descriptor_transaction() as mgr:
+                    mgr.remove_descriptor(handle)
+                    inside.set()
+                    go.wait(5)
+
+            def reader(route):
+                try:
+                    if route == 'by_handle':
+                        e = m.entities.by_handle(handle)
+                    else:
+                        e = next((x for h_, x in m.entities.items() if h_ == handle), None)
+                    result[route] = None if e is None else (len(e.states) if e.is_multi_state else 1)
+                except Exception as ex:  # noqa: BLE001
+                    result[route] = f'raised {type(ex).__name__}: {ex}'
+            tw = threading.Thread(target=writer, daemon=True)
+            tw.start()
+            inside.wait(5)
+            readers = [threading.Thread(target=reader, args=(r,), daemon=True) for r in ('by_handle', 'items')]
+            for t in readers:
+                t.start()
+            import time as _t
+            _t.sleep(0.3)
+            go.set()
+            tw.join(5)
+            for t in readers:
+                t.join(5)
+            case = {'reader_during_transaction': handle, 'answers': dict(result), 'states_before': before_n}
+            for route, r in result.items():
+                if r is not None and r != before_n:
+                    ctx.fail('reader-saw-partly-applied-transaction',
+                             f'entities.{route}({handle}) during a transaction that removes it: {r} (before: {before_n} state(s), after: None)', case)
+            ctx.case(case, nontrivial=True)
+            ctx.count('reader-scenarios')
+    finally:
+        w.close()
+
+
 def send_failure_scenario(ctx):
     """The commit itself fails while the reports are sent (the committed content is not schema valid and a subscriber
     exists, so serialisation of the notification raises ValidationError inside the commit): the statement demands that the
@@ -330,6 +385,7 @@ def run(ctx):
     c02.run(ctx, hook_cls=C03Hook, prop='C03', drv='drv_c03')
     precommit_veto_scenario(ctx)
     send_failure_scenario(ctx)
+    reader_during_transaction_scenario(ctx)
 
 
 def search(ctx):
@@ -342,6 +398,11 @@ def replay(ctx, obj):
     ctx2 = core.Ctx('C03', 'quick', 0)
     if 'send_failure_scenario' in case:
         send_failure_scenario(ctx2)
+        for f in ctx2.failures:
+            print('  ', f['signature'], ':', f['detail'])
+        return any(f['signature'] == obj['signature'] for f in ctx2.failures)
+    if 'reader_during_transaction' in case:
+        reader_during_transaction_scenario(ctx2)
         for f in ctx2.failures:
             print('  ', f['signature'], ':', f['detail'])
         return any(f['signature'] == obj['signature'] for f in ctx2.failures)
